@@ -43,13 +43,19 @@ func (rs *peerSwitchSender) _switch(
 	oReqs map[address.Address]Request,
 ) error {
 	if r.Command == CommandWrite {
-		for nodeKey, frame := range r.Frame.SplitByLeaseholder() {
-			addr, ok := rs.addresses[nodeKey]
-			if !ok {
+		split := r.Frame.SplitByLeaseholder()
+		for nodeKey := range split {
+			if _, ok := rs.addresses[nodeKey]; !ok {
 				rs.logger.DPanic("missing address for node", zap.Uint32("node", uint32(nodeKey)))
 			}
-			r.Frame = frame
-			oReqs[addr] = r
+		}
+		// Every peer receives its part of the frame, even when that part is empty
+		// (as the gateway and free writers do), so that each write is acknowledged by
+		// every leaseholder the writer spans.
+		for nodeKey, addr := range rs.addresses {
+			pr := r
+			pr.Frame = split[nodeKey]
+			oReqs[addr] = pr
 		}
 	} else {
 		for _, addr := range rs.addresses {
